@@ -338,6 +338,13 @@ def structure_rules(repo, res):
     if f6 is not None:
         v = A.resolve(f6.body, A.fn_env(f6))
         res.check(v[0] == "call" and P.last(v[1]) == "do_minimize" and v[2][0][0] == "param", "MPT", "MPT:dfa::DFA::minimize", f"minimize(self) = {A.show(v)}", f6.loc())
+        # .. on every path: no early return hands the automaton back as it came (a cheaper test for `already minimal` is right only if
+        # it is exactly state equivalence, which is what the refinement computes)
+        env6 = A.collect_envs(f6)
+        early = [r_ for r_ in A.walk(f6.body) if r_["k"] == "Return"]
+        ident = [r_ for r_ in early if r_.get("expr") is not None and P.peel(A.resolve(r_["expr"], env6.get(id(r_)) or A.fn_env(f6)))[0] == "param"]
+        res.check(not ident, "NOIDRET", "NOIDRET:dfa::DFA::minimize:no-identity-return", "minimize never returns its argument unchanged" if not ident else
+                  f"minimize returns `self` unchanged at line {ident[0]['l']}: an automaton that the shortcut takes for minimal is emitted with its equivalent states unmerged", f6.loc())
     res.floor("CHAIN", res.count("CHAIN"), 3)
     res.floor("REP", res.count("REP"), 2)
     res.floor("DEAD", res.count("DEAD"), 2)
